@@ -118,7 +118,7 @@ def tlc(spec, cfg=None, env=None, workers=1, timeout=900, simulate=None, depth=N
     shutil.rmtree(meta, ignore_errors=True)
     os.makedirs(meta, exist_ok=True)
     e = dict(os.environ)
-    jopts = "-Xss512m"
+    jopts = "-Xss512m -Djava.io.tmpdir=" + meta          # TLC's scratch directories stay under build/ (nothing is left in /tmp)
     if dfs:
         jopts += " -Dtlc2.tool.queue.IStateQueue=StateDeque"
     e["JAVA_TOOL_OPTIONS"] = jopts
